@@ -959,14 +959,34 @@ func (ev *evaluator) evalCall(x *ECall) SV {
 		default:
 			key = describeExpr(a)
 		}
-		if !strings.Contains(key, ".") || strings.Count(key, ".") == 1 && !strings.Contains(key, "(") {
-			key = ev.env.pkg + "." + key
-		}
+		// counters are keyed exactly as the chaninv declaration names the channel ("Struct.field",
+		// "(*T).method.local")
 		ck := cellKey{0, id.Name + ":" + key}
 		if v, ok := ev.curState().cells[ck].(Term); ok {
 			return SV{v, types.Typ[types.Int]}
 		}
 		return SV{intLit(0), types.Typ[types.Int]}
+	case "ctxDone":
+		// ctxDone(c): has the function observed context c as done (received from c.Done(), or saw c.Err() != nil)
+		c, _ := ev.evalTerm(x.Args[0])
+		// the flags are keyed by the term the code used for the context: compare semantically
+		var alts []Term
+		var keys []string
+		for ck := range ev.curState().cells {
+			if s, ok := ck.v.(string); ok && ck.frame == 0 && strings.HasPrefix(s, "ctxdone:") {
+				keys = append(keys, s)
+			}
+		}
+		sort.Strings(keys)
+		for _, s := range keys {
+			if v, ok := ev.curState().cells[cellKey{0, s}].(Term); ok {
+				alts = append(alts, tAnd(tEq(T(SInt, strings.TrimPrefix(s, "ctxdone:")), c), v))
+			}
+		}
+		if len(alts) == 0 {
+			return SV{tFalse, boolT}
+		}
+		return SV{tOr(alts...), boolT}
 	case "visited":
 		// visited(k [, n]): has key k been produced by the n-th (default: only) `range` over a map of the
 		// function under verification (ghost set maintained by the map-iteration model)
